@@ -39,6 +39,7 @@ inductive It where
   | pushNew (f : Frame) (src : It) (rest : List Dir)
   | stripNew (e : Option Expr) (src : It)
   | stripRun (prev : TEv) (src : It)     -- StripDirective._generate with its one-event look-behind
+  | macroNew (m : Macro) (arg : Option Val)   -- the generator a `py:def` function returned, not started
   | dead
   deriving Repr, Inhabited
 
@@ -67,20 +68,26 @@ def whenMatched (fs : List Frame) (info : Choice) (e : Option Expr) : Except Err
     | .error er => .error er
     | .ok x => .ok x.truthy
 
-def applyDirs (c : Ctx) (stream : It) : List Dir → Except Err (Ctx × It)
+/-- `list(stream)` for a plain list iterator -/
+def remaining (h ph : Heap) : It → Option (List TEv)
+  | .lst l => some l
+  | .ref r i => (readEvs h ph r).map (·.drop i)
+  | _ => none
+
+def applyDirs (h ph : Heap) (c : Ctx) (stream : It) : List Dir → Except Err (Ctx × It)
   | [] => .ok (c, stream)
   | d :: rest =>
     match d.kind with
     | .pyIf e =>
       match eval c.frames e with
       | .error er => .error er
-      | .ok v => if v.truthy then applyDirs c stream rest else .ok (c, .lst [])
+      | .ok v => if v.truthy then applyDirs h ph c stream rest else .ok (c, .lst [])
     | .pyFor var e => .ok (c, .forNew var e stream rest)
     | .pyWith b => .ok (c, .withNew b stream rest)
     | .pyChoose e => .ok (c, .chooseNew e stream rest)
     | .i18nDomain dm => .ok (c, .pushNew [(sDomain, .atom (.str dm))] stream rest)
     | .i18nCtxt cx => .ok (c, .pushNew [(sContext, .atom (.str cx))] stream rest)
-    | .i18nComment _ => applyDirs c stream rest
+    | .i18nComment _ => applyDirs h ph c stream rest
     | .pyWhen e =>
       match c.choice with
       | [] => .error .runtime
@@ -91,14 +98,20 @@ def applyDirs (c : Ctx) (stream : It) : List Dir → Except Err (Ctx × It)
           | .error er => .error er
           | .ok m =>
             let c' := { c with choice := { info with matched := m } :: more }
-            if m then applyDirs c' stream rest else .ok (c', .lst [])
+            if m then applyDirs h ph c' stream rest else .ok (c', .lst [])
     | .pyOtherwise =>
       match c.choice with
       | [] => .error .runtime
       | info :: more =>
         if info.matched then .ok (c, .lst [])
-        else applyDirs { c with choice := { info with matched := true } :: more } stream rest
-    | .pyStrip e => applyDirs c (.stripNew e stream) rest
+        else applyDirs h ph { c with choice := { info with matched := true } :: more } stream rest
+    | .pyStrip e => applyDirs h ph c (.stripNew e stream) rest
+    | .pyDef name params =>
+      -- DefDirective.__call__: `stream = list(stream)`; the function goes into the BOTTOM frame; nothing is output
+      match remaining h ph stream with
+      | none => .error .unmodelled
+      | some body =>
+        .ok ({ c with frames := setBottom c.frames name (.macro ⟨name, params, body, rest⟩) }, .lst [])
     | _ => .error .unmodelled
 
 /-! ## directive generators -/
@@ -109,12 +122,6 @@ def iterItems : Val → Option (List Atom)
   | .atom (.str s) => some (s.map fun ch => .str [ch])
   | _ => none
 
-/-- `list(stream)` for a plain list iterator -/
-def remaining (h ph : Heap) : It → Option (List TEv)
-  | .lst l => some l
-  | .ref r i => (readEvs h ph r).map (·.drop i)
-  | _ => none
-
 /-- `py:with`: the assignments are evaluated one after the other in the frame already pushed -/
 def evalBinds (c : Ctx) : List (Str × Expr) → Except (Ctx × Err) Ctx
   | [] => .ok c
@@ -122,6 +129,17 @@ def evalBinds (c : Ctx) : List (Str × Expr) → Except (Ctx × Err) Ctx
     match eval c.frames e with
     | .error er => .error (c, er)
     | .ok v => evalBinds (c.setTop n v) rest
+
+/-- positional arguments first, then the default expressions (evaluated in the caller's context at call
+    time); a parameter with neither: `_eval_expr(None, …)` raises AttributeError.  Extra arguments are dropped. -/
+def bindParams (fs : List Frame) : List (Str × Option Expr) → Option Val → Frame → Except Err Frame
+  | [], _, acc => .ok acc
+  | (n, _) :: rest, some a, acc => bindParams fs rest none (acc ++ [(n, a)])
+  | (n, some d) :: rest, none, acc =>
+    match eval fs d with
+    | .error er => .error er
+    | .ok v => bindParams fs rest none (acc ++ [(n, v)])
+  | (_, none) :: _, none, _ => .error .attribute
 
 structure PullRes where
   st : St
@@ -166,7 +184,7 @@ def pull (h : Heap) : Nat → St → It → PullRes
     | .forNext _ [] _ _ => ⟨st, .dead, .done⟩
     | .forNext var (x :: xs) body rest =>
       let c1 := st.ctx.push [(var, .atom x)]
-      match applyDirs c1 (.lst body) rest with
+      match applyDirs h st.ph c1 (.lst body) rest with
       | .error er => ⟨{ st with ctx := c1 }, .dead, .err er⟩
       | .ok (c2, inner) => pull h fuel { st with ctx := c2 } (.forRun var xs body rest inner)
     | .forRun var xs body rest inner =>
@@ -179,7 +197,7 @@ def pull (h : Heap) : Nat → St → It → PullRes
       match evalBinds (st.ctx.push []) binds with
       | .error (c', er) => ⟨{ st with ctx := c' }, .dead, .err er⟩
       | .ok c2 =>
-        match applyDirs c2 src rest with
+        match applyDirs h st.ph c2 src rest with
         | .error er => ⟨{ st with ctx := c2 }, .dead, .err er⟩
         | .ok (c3, inner) => pull h fuel { st with ctx := c3 } (.popAfter inner)
     | .popAfter inner =>
@@ -197,7 +215,7 @@ def pull (h : Heap) : Nat → St → It → PullRes
       | .error er => ⟨st, .dead, .err er⟩
       | .ok v =>
         let c1 := { st.ctx with choice := ⟨false, e.isSome, v⟩ :: st.ctx.choice }
-        match applyDirs c1 src rest with
+        match applyDirs h st.ph c1 src rest with
         | .error er => ⟨{ st with ctx := c1 }, .dead, .err er⟩
         | .ok (c2, inner) => pull h fuel { st with ctx := c2 } (.chooseRun inner)
     | .chooseRun inner =>
@@ -208,7 +226,7 @@ def pull (h : Heap) : Nat → St → It → PullRes
       | .done => ⟨{ r.st with ctx := { r.st.ctx with choice := r.st.ctx.choice.tail } }, .dead, .done⟩
     | .pushNew f src rest =>
       let c1 := st.ctx.push f
-      match applyDirs c1 src rest with
+      match applyDirs h st.ph c1 src rest with
       | .error er => ⟨{ st with ctx := c1 }, .dead, .err er⟩
       | .ok (c2, inner) => pull h fuel { st with ctx := c2 } (.popAfter inner)
     | .stripNew e src =>
@@ -230,6 +248,15 @@ def pull (h : Heap) : Nat → St → It → PullRes
           | .err er => ⟨r2.st, .dead, .err er⟩
           | .done => ⟨r2.st, .dead, .err .stopIter⟩
           | .item p => pull h fuel r2.st (.stripRun p r2.it)
+    | .macroNew m arg =>
+      -- the body of `function(*args)`: bind the parameters, push the scope, apply the remaining directives
+      match bindParams st.ctx.frames m.params arg [] with
+      | .error er => ⟨st, .dead, .err er⟩
+      | .ok scope =>
+        let c1 := st.ctx.push scope
+        match applyDirs h st.ph c1 (.lst m.body) m.rest with
+        | .error er => ⟨{ st with ctx := c1 }, .dead, .err er⟩
+        | .ok (c2, inner) => pull h fuel { st with ctx := c2 } (.popAfter inner)
     | .stripRun p src =>
       let r := pull h fuel st src
       match r.out with
@@ -456,12 +483,15 @@ def flat (v : Variant) : Nat → Heap → St → Src → List It → FlatRes
         | .ok (.atom a) => ⟨h1, st1, src1, stack1, .ev (.text a.text true)⟩
         | .ok (.list xs) => flat v fuel h1 st1 src1 (.ensure xs :: stack1)
         | .ok (.opaque _) => ⟨h1, st1, src1, stack1, .err .unmodelled⟩
+        | .ok (.macro _) => ⟨h1, st1, src1, stack1, .err .unmodelled⟩
+        | .ok (.gen0 m) => flat v fuel h1 st1 src1 (.macroNew m none :: stack1)
+        | .ok (.gen1 m a) => flat v fuel h1 st1 src1 (.macroNew m (some a) :: stack1)
       | .sub d b =>
         match readDirs h1 st1.ph d with
         | none => ⟨h1, st1, src1, stack1, .err .unmodelled⟩
         | some ds =>
           -- `_apply_directives`: `directives[0](iter(stream), directives[1:], …)`, or the list itself
-          match applyDirs st1.ctx (if ds.isEmpty then .raw b 0 else .ref b 0) ds with
+          match applyDirs h1 st1.ph st1.ctx (if ds.isEmpty then .raw b 0 else .ref b 0) ds with
           | .error er => ⟨h1, st1, src1, stack1, .err er⟩
           | .ok (c2, it2) => flat v fuel h1 { st1 with ctx := c2 } src1 (it2 :: stack1)
 
